@@ -360,9 +360,11 @@ func ruleC10ParseBeforeStore(c *Ctx, rule string) {
 		}
 		n := 0
 		for _, fn := range WithAnon(onMsg) {
-			for _, mu := range mapUpdatesOfField(deepFuncs(fn), d.fPKs) {
+			for _, st := range fieldMapStores(deepFuncs(fn), d.fPKs) {
+				mu := st.mu
+				stored := st.resolve(mu.Value)
 				n++
-				ok := hasFact(FactsAt(mu), func(f Fact) bool {
+				ok := hasFact(FactsAt(st.at()), func(f Fact) bool {
 					if f.Op != token.EQL || !isNilConst(f.Y) {
 						return false
 					}
@@ -379,13 +381,13 @@ func ruleC10ParseBeforeStore(c *Ctx, rule string) {
 						return false
 					}
 					for _, a := range cl.Call.Args {
-						if isByteSlice(a.Type()) && sameBytes(a, mu.Value) {
+						if isByteSlice(a.Type()) && sameBytes(a, stored) {
 							return true
 						}
 					}
 					return false
 				})
-				c.Check(ok, rule, FuncName(fn), "received key parsed before it is stored", d.m.Pos(mu.Pos()), "dominated by the success of the parser the assembly uses, on the same bytes",
+				c.Check(ok, rule, FuncName(fn), "received key parsed before it is stored", d.m.Pos(st.at().Pos()), "dominated by the success of the parser the assembly uses, on the same bytes",
 					"received bytes are stored as a party's public key without having been parsed with the parser the key assembly uses: the assembly panics (\"programming error … is malformed\") on them, so one malformed reveal crashes every honest party at the end of key generation")
 			}
 		}
